@@ -1518,12 +1518,11 @@ theorem resolvePlaceholder_generated_eq_model (d : Delims) (hd : d.BytesOK) (lk 
     their tokens (whose rendering is the text), for every recursion fuel ≥ 1, every lookup function,
     every stack.
 
-    Full statement (NOT proved; `resolve_generated_eq_model`): for every text `s`, every fuel `n` at
-    which the model has ended, `Funcs.resolve … n s lk seen` is the rendering of
+    Full statement (PROVED further down: `resolve_generated_eq_model`): for every text `s`, every fuel
+    `n` at which the model has ended, `Funcs.resolve … m s lk seen` (m ≥ n) is the rendering of
     `Resolver.resolve (relex d) n tbl (lex d s) (seen.map lex)` — `.ok t ↦ .ok (some (unlex t))`,
     `.cycle _ ↦ .panic` — under `BytesOK`, `LookupRel` and table values that re-lex to themselves.
-    (Equal fuel gives only this direction: the model spends one unit of fuel per loop continuation,
-    the translation only per recursive call.) -/
+    This partial needs neither `LookupRel` nor a hypothesis on the table. -/
 theorem resolve_generated_eq_model_plain_partial (d : Delims) (hd : d.BytesOK) (lk : String → Option String)
     (n : Nat) (norm : Toks → Toks) (tbl : Table) (s : String) (seen : List String) (seenT : List Toks)
     (hplain : findPre (lex d s.toList) = none) :
@@ -1561,5 +1560,475 @@ theorem nonvacuous_resolve_generated :
     R 5 "a${x" = .ok "a${x" ∧
     R 1 "${y}" = .fuel := by
   decide
+
+end Ytk.C11
+
+/-! ## `propImpl.resolve`, as translated, against the model: the general case -/
+namespace Ytk.C11
+open Ytk.Generated Ytk.Resolver
+
+/-- lexing a Go string -/
+def lexS (d : Delims) (s : String) : Toks := lex d s.toList
+/-- rendering tokens as a Go string -/
+def render (d : Delims) (t : Toks) : String := String.ofList (unlex d t)
+
+/-- the translated `resolve` for the delimiter triple `d` and the lookup function `lk` -/
+abbrev genResolve (d : Delims) (lk : String → Option String) (m : Nat) (s : String) (lk' : String → Option String)
+    (seen : List String) : Go.Res (Option String) :=
+  Funcs.resolve (String.ofList d.pre) (d.pre.length : Int) (String.ofList d.suf) (d.suf.length : Int)
+    (String.ofList d.sep) (d.sep.length : Int) m s lk' seen
+
+/-- the loop of the translated `resolve`, its recursive calls going to `rec_` -/
+abbrev genLoop (d : Delims) (lk : String → Option String)
+    (rec_ : String → (String → Option String) → List String → Go.Res (Option String))
+    (lf : Nat) (seen : List String) (si : Int) (result : String) : Go.Res (List String × Int × String) :=
+  Funcs.resolve_loop1 rec_ (String.ofList d.pre) (d.pre.length : Int) (String.ofList d.suf) (d.suf.length : Int)
+    (String.ofList d.sep) (d.sep.length : Int) lk lf seen si result
+
+/-- outcome kinds: ok ↦ ok (pointer to the rendering), circular reference ↦ panic, out of fuel ↦ out of fuel -/
+def conv (d : Delims) : Resolver.Res → Go.Res (Option String)
+  | .ok t => .ok (some (render d t))
+  | .cycle _ => .panic
+  | .outOfFuel => .fuel
+
+/-- the same with the already finished part `done` of `result` in front -/
+def convL (d : Delims) (done : List Char) : Resolver.Res → Go.Res (Option String)
+  | .ok t => .ok (some (String.ofList (done ++ unlex d t)))
+  | .cycle _ => .panic
+  | .outOfFuel => .fuel
+
+/-- what `resolve` does with the outcome of its loop: `return &result` -/
+def rsFinish : (List String × Int × String) → Go.Res (Option String)
+  | (_, _, result) => .ok (some result)
+
+/-- Go's `si` while `result = done ++ rest`: position of the first prefix in `rest`, or notFound -/
+def siOf (d : Delims) (done rest : List Char) : Int :=
+  match findPre (lex d rest) with
+  | none => -1
+  | some (b, _) => ((done.length + (unlex d b).length : Nat) : Int)
+
+theorem convL_nil (d : Delims) (r : Resolver.Res) : convL d [] r = conv d r := by
+  cases r <;> simp [convL, conv, render]
+
+theorem lexS_render_inj (d : Delims) {a b : String} (h : lexS d a = lexS d b) : a = b := by
+  have := congrArg (unlex d) h
+  simp only [lexS, unlex_lex'] at this
+  exact String.toList_inj.mp this
+
+theorem contains_map_lexS (d : Delims) (seen : List String) (x : String) :
+    (seen.map (lexS d)).contains (lexS d x) = seen.contains x := by
+  induction seen with
+  | nil => rfl
+  | cons a r ih =>
+    by_cases h : x = a
+    · subst h; simp [List.contains_cons]
+    · have h' : lexS d x ≠ lexS d a := fun e => h (lexS_render_inj d e)
+      have b1 : (lexS d x == lexS d a) = false := by simpa using h'
+      have b2 : (x == a) = false := by simpa using h
+      simp only [List.map_cons, List.contains_cons, ih, b1, b2]
+
+/-- the bytes around the first placeholder of a lexed text, and the segments that re-lex to themselves -/
+theorem firstPh_bytes {d : Delims} (hd : d.LexOK) {rest : List Char} {before ph after : Toks}
+    (h : firstPh (lex d rest) = some (before, ph, after)) :
+    rest = unlex d before ++ (d.pre ++ (unlex d ph ++ (d.suf ++ unlex d after)))
+    ∧ lex d (unlex d ph) = ph ∧ lex d (unlex d after) = after
+    ∧ findPre (lex d rest) = some (before, ph ++ .suf :: after)
+    ∧ lex d (unlex d (ph ++ .suf :: after)) = ph ++ .suf :: after := by
+  obtain ⟨afterPre, h1, h2⟩ := firstPh_split h
+  have e1 := (findPre_some h1).1
+  have e2 := (findEnd_some_spec h2).1
+  subst e2
+  have hr := unlex_lex' d rest
+  rw [e1] at hr
+  have hsuf : lex d (unlex d (ph ++ .suf :: after)) = ph ++ .suf :: after :=
+    lex_unlex_suffix hd _ rest (Nat.le_refl _) (before ++ [.pre]) _ (by rw [e1]; simp)
+  refine ⟨?_, ?_, ?_, h1, hsuf⟩
+  · rw [← hr]; simp [DivR.unlex_append, unlex, unlexTok]
+  · exact lex_unlex_prefix hd _ _ (Nat.le_refl _) ph (.suf :: after) hsuf
+  · exact lex_unlex_suffix hd _ rest (Nat.le_refl _) (before ++ .pre :: ph ++ [.suf]) after (by rw [e1]; simp)
+
+theorem genLoop_exit (d : Delims) (lk : String → Option String)
+    (rec_ : String → (String → Option String) → List String → Go.Res (Option String))
+    (f : Nat) (seen : List String) (result : String) :
+    genLoop d lk rec_ (f + 1) seen (-1) result = .ok (seen, -1, result) := by
+  simp [genLoop, Funcs.resolve_loop1]
+
+end Ytk.C11
+
+namespace Ytk.C11
+open Ytk.Generated Ytk.Resolver
+
+/-- the recursive calls of the translated `resolve` with fuel `m` agree with the model at fuel `n` -/
+def SubOK (d : Delims) (lk : String → Option String) (tbl : Table) (m n : Nat) : Prop :=
+  ∀ (s : String) (seen : List String),
+    Resolver.resolve (relex d) n tbl (lexS d s) (seen.map (lexS d)) ≠ .outOfFuel →
+    genResolve d lk m s lk seen = conv d (Resolver.resolve (relex d) n tbl (lexS d s) (seen.map (lexS d)))
+
+/-- the loop of the translated `resolve` (recursive calls with fuel `m`), continued on the unscanned
+    rest of `result`, agrees with the model at fuel `n` on the tokens of that rest -/
+def LoopOK (d : Delims) (lk : String → Option String) (tbl : Table) (m n : Nat) : Prop :=
+  ∀ (done rest : List Char) (seen : List String) (lf : Nat), rest.length + 1 ≤ lf →
+    Resolver.resolve (relex d) n tbl (lex d rest) (seen.map (lexS d)) ≠ .outOfFuel →
+    (genLoop d lk (genResolve d lk m) lf seen (siOf d done rest) (String.ofList (done ++ rest)) >>= rsFinish)
+      = convL d done (Resolver.resolve (relex d) n tbl (lex d rest) (seen.map (lexS d)))
+
+theorem siOf_eq_stringsIndexC {d : Delims} (hd : d.BytesOK) (done rest : List Char) :
+    siOf d done rest = Go.stringsIndexC d.pre rest done.length := by
+  rw [stringsIndexC_pre hd]; rfl
+
+/-- the resolved value that replaces a placeholder re-lexes to itself -/
+theorem relex_value {d : Delims} (hd : d.LexOK) {tbl : Table} (hT : ∀ kv ∈ tbl, relex d kv.2 = kv.2)
+    {x : List Char} {pv : Toks} (h : Resolver.resolvePlaceholder tbl (lex d x) = some pv) : lex d (unlex d pv) = pv := by
+  rcases resolvePlaceholder_cases h with ⟨k, hk⟩ | ⟨k, hk⟩
+  · exact hT _ hk
+  · have e := findSep_some hk
+    exact lex_unlex_suffix hd _ x (Nat.le_refl _) (k ++ [.sep]) pv (by rw [e]; simp)
+
+end Ytk.C11
+
+namespace Ytk.C11
+open Ytk.Generated Ytk.Resolver
+
+/-- ONE ITERATION of the loop of the translated `resolve` against one unfolding of the model -/
+theorem loop_iter (d : Delims) (hd : d.BytesOK) (lk : String → Option String) (tbl : Table)
+    (hlk : LookupRel d lk tbl) (hT : ∀ kv ∈ tbl, relex d kv.2 = kv.2) (m n : Nat)
+    (H : SubOK d lk tbl m n) (K : LoopOK d lk tbl m n) : LoopOK d lk tbl m (n + 1) := by
+  intro done rest seen lf hlf hne
+  have hlex := hd.1.1
+  obtain ⟨pa, pas, sa, sas, va, vas, hpre, hsuf, _⟩ := hd.1.cases
+  have hpl : 1 ≤ d.pre.length := by rw [hpre]; simp
+  have hsl : 1 ≤ d.suf.length := by rw [hsuf]; simp
+  cases lf with
+  | zero => omega
+  | succ f =>
+  have plain : ∀ (si : Int), firstPh (lex d rest) = none →
+      (genLoop d lk (genResolve d lk m) (f + 1) seen si (String.ofList (done ++ rest)) >>= rsFinish)
+        = .ok (some (String.ofList (done ++ rest))) →
+      (genLoop d lk (genResolve d lk m) (f + 1) seen si (String.ofList (done ++ rest)) >>= rsFinish)
+        = convL d done (Resolver.resolve (relex d) (n + 1) tbl (lex d rest) (seen.map (lexS d))) := by
+    intro si hfp hgo
+    rw [hgo, resolve_succ_none n _ hfp]
+    simp [convL, unlex_lex']
+  cases hp : findPre (lex d rest) with
+  | none =>
+    apply plain _ (by simp [firstPh, hp])
+    have : siOf d done rest = -1 := by simp [siOf, hp]
+    rw [this, genLoop_exit]; rfl
+  | some p =>
+    obtain ⟨b, afterPre⟩ := p
+    have e1 := (findPre_some hp).1
+    have hrest : rest = unlex d b ++ (d.pre ++ unlex d afterPre) := by
+      have := unlex_lex' d rest
+      rw [e1, DivR.unlex_append] at this
+      rw [← this]; simp [unlex, unlexTok]
+    have hAP : lex d (unlex d afterPre) = afterPre :=
+      lex_unlex_suffix hlex _ rest (Nat.le_refl _) (b ++ [.pre]) afterPre (by rw [e1]; simp)
+    have hsi : siOf d done rest = ((done.length + (unlex d b).length : Nat) : Int) := by simp [siOf, hp]
+    have hsine : ((((done.length + (unlex d b).length : Nat) : Int)) != -1) = true := by
+      simp; omega
+    have hres : (String.ofList (done ++ rest)).toList = done ++ rest := String.toList_ofList
+    have hdrop : (done ++ rest).drop (done.length + (unlex d b).length + d.pre.length) = unlex d afterPre := by
+      rw [hrest]
+      have : done ++ (unlex d b ++ (d.pre ++ unlex d afterPre)) = (done ++ unlex d b ++ d.pre) ++ unlex d afterPre := by simp
+      rw [this, List.drop_left' (by simp only [List.length_append]; first | done | omega)]
+    have hfe := findEndIndex_generated_eq_model d hd.1 (String.ofList (done ++ rest)) (done.length + (unlex d b).length)
+    rw [hres, hdrop, hAP] at hfe
+    rw [hsi]
+    cases he : findEnd 0 afterPre with
+    | none =>
+      rw [← hsi]
+      apply plain _ (by simp [firstPh, hp, he])
+      rw [hsi]
+      rw [he] at hfe
+      have hf1 : 1 ≤ f := by
+        have : rest.length = (unlex d b).length + (d.pre.length + (unlex d afterPre).length) := by
+          rw [hrest]; simp
+        omega
+      obtain ⟨f', rfl⟩ : ∃ f', f = f' + 1 := ⟨f - 1, by omega⟩
+      simp only [genLoop, Funcs.resolve_loop1, hsine, if_true, hfe, Go.Res.ok_bind, bne_self_eq_false,
+        Bool.false_eq_true, if_false]
+      rfl
+    | some q =>
+      obtain ⟨ph, after⟩ := q
+      rw [he] at hfe
+      have hfirst : firstPh (lex d rest) = some (b, ph, after) := firstPh_of hp he
+      obtain ⟨hbytes, hphL, hafterL, _, _⟩ := firstPh_bytes hlex hfirst
+      have hlen : rest.length = (unlex d b).length + (d.pre.length + ((unlex d ph).length + (d.suf.length + (unlex d after).length))) := by
+        rw [hbytes]; simp
+      -- the placeholder text
+      have heine : ((((done.length + (unlex d b).length + d.pre.length + (unlex d ph).length : Nat) : Int)) != -1) = true := by
+        simp; omega
+      have e_sipl : (((done.length + (unlex d b).length : Nat) : Int)) + (d.pre.length : Int)
+          = ((done.length + (unlex d b).length + d.pre.length : Nat) : Int) := by omega
+      have hslice := Go.slice_nat (String.ofList (done ++ rest)) (done.length + (unlex d b).length + d.pre.length)
+        (done.length + (unlex d b).length + d.pre.length + (unlex d ph).length) (by omega) (by rw [hres]; simp; omega)
+      have hphbytes : ((done ++ rest).drop (done.length + (unlex d b).length + d.pre.length)).take
+          (done.length + (unlex d b).length + d.pre.length + (unlex d ph).length - (done.length + (unlex d b).length + d.pre.length))
+          = unlex d ph := by
+        rw [hbytes]
+        have : done ++ (unlex d b ++ (d.pre ++ (unlex d ph ++ (d.suf ++ unlex d after))))
+            = (done ++ unlex d b ++ d.pre) ++ (unlex d ph ++ (d.suf ++ unlex d after)) := by simp
+        rw [this, List.drop_left' (by simp only [List.length_append]; first | done | omega)]
+        simp
+      rw [hres, hphbytes, show String.ofList (unlex d ph) = render d ph from rfl] at hslice
+      have hphS : lexS d (render d ph) = ph := by simp [lexS, render, hphL]
+      have hcont : Go.slicesContains seen (render d ph) = (seen.map (lexS d)).contains ph := by
+        rw [← hphS, contains_map_lexS, hphS]; rfl
+      simp only [genLoop, Funcs.resolve_loop1, hsine, if_true, hfe, Go.Res.ok_bind, heine, e_sipl, hslice]
+      show (if Go.slicesContains seen (render d ph) = true then _ else _) >>= rsFinish = _
+      rw [hcont]
+      by_cases hc : ph ∈ seen.map (lexS d)
+      · have hc' : (seen.map (lexS d)).contains ph = true := by simpa using hc
+        rw [resolve_succ_here n hfirst hc, hc']
+        simp only [if_true, Go.Res.panic_bind, convL]
+      · have hc' : (seen.map (lexS d)).contains ph = false := by simpa using hc
+        have hnotin : render d ph ∉ seen := by
+          intro hm
+          apply hc
+          rw [← hphS]
+          exact List.mem_map_of_mem hm
+        rw [resolve_succ_some n hfirst hc] at hne ⊢
+        have hseen1 : (seen ++ [render d ph]).map (lexS d) = seen.map (lexS d) ++ [ph] := by simp [hphS]
+        have hrm : Funcs.removeFromSlice (seen ++ [render d ph]) (render d ph) = .ok seen := by
+          rw [removeFromSlice_generated_eq_model, List.erase_append_right _ hnotin]; simp
+        simp only [hc', Bool.false_eq_true, if_false]
+        unfold body at hne ⊢
+        -- first recursive call: the placeholder text
+        have h1 := H (render d ph) (seen ++ [render d ph])
+        rw [hseen1, hphS] at h1
+        cases hr1 : Resolver.resolve (relex d) n tbl ph (seen.map (lexS d) ++ [ph]) with
+        | outOfFuel => rw [hr1] at hne; exact absurd rfl hne
+        | cycle o =>
+          rw [hr1] at h1
+          simp only [genResolve] at h1
+          simp [h1 (by simp), conv, convL]
+        | ok ph' =>
+          rw [hr1] at h1 hne
+          simp only [genResolve] at h1
+          have hrp := resolvePlaceholder_generated_eq_model d hd lk tbl hlk (render d ph')
+          have hrl : lex d (render d ph').toList = relex d ph' := by simp [render, relex]
+          rw [hrl] at hrp
+          simp only [h1 (by simp), conv, Go.Res.ok_bind, Go.deref, hrp]
+          cases hpv : Resolver.resolvePlaceholder tbl (relex d ph') with
+          | none =>
+            simp only [hpv] at hne
+            simp only [Option.map_none, Option.isSome_none, Bool.false_eq_true, if_false]
+            -- indexAfter(result, prefix, ei+sl)
+            have e_eisl : (((done.length + (unlex d b).length + d.pre.length + (unlex d ph).length : Nat) : Int)) + (d.suf.length : Int)
+                = ((done.length + (unlex d b).length + d.pre.length + (unlex d ph).length + d.suf.length : Nat) : Int) := by omega
+            have hia := indexAfter_generated_eq_model (String.ofList (done ++ rest)) (String.ofList d.pre)
+              (done.length + (unlex d b).length + d.pre.length + (unlex d ph).length + d.suf.length)
+            have hnl : ¬ (String.ofList (done ++ rest)).toList.length
+                < done.length + (unlex d b).length + d.pre.length + (unlex d ph).length + d.suf.length := by
+              rw [hres]; simp; omega
+            have hdone' : done ++ rest = (done ++ unlex d b ++ d.pre ++ unlex d ph ++ d.suf) ++ unlex d after := by
+              rw [hbytes]; simp
+            have hdrop2 : (done ++ rest).drop (done.length + (unlex d b).length + d.pre.length + (unlex d ph).length + d.suf.length)
+                = unlex d after := by
+              rw [hdone', List.drop_left' (by simp only [List.length_append]; first | done | omega)]
+            rw [if_neg hnl, hres, hdrop2, String.toList_ofList] at hia
+            have hsi' : Go.stringsIndexC d.pre (unlex d after)
+                (done.length + (unlex d b).length + d.pre.length + (unlex d ph).length + d.suf.length)
+                = siOf d (done ++ unlex d b ++ d.pre ++ unlex d ph ++ d.suf) (unlex d after) := by
+              rw [siOf_eq_stringsIndexC hd]; congr 1; simp only [List.length_append]
+            rw [hsi'] at hia
+            simp only [e_eisl, hia, Go.Res.ok_bind, hrm]
+            have hk := K (done ++ unlex d b ++ d.pre ++ unlex d ph ++ d.suf) (unlex d after) seen f (by omega)
+            rw [hafterL] at hk
+            have hne' : Resolver.resolve (relex d) n tbl after (seen.map (lexS d)) ≠ .outOfFuel :=
+              prepend_ne_outOfFuel.mp hne
+            rw [← hdone'] at hk
+            show genLoop d lk (genResolve d lk m) f seen _ _ >>= rsFinish = _
+            rw [hk hne']
+            cases Resolver.resolve (relex d) n tbl after (seen.map (lexS d)) <;>
+              simp [convL, Res.prepend, DivR.unlex_append, unlex, unlexTok]
+          | some pv =>
+            simp only [hpv] at hne
+            simp only [Option.map_some, Option.isSome_some, if_true]
+            have hpvL : lex d (unlex d pv) = pv := by
+              have hh : Resolver.resolvePlaceholder tbl (lex d (unlex d ph')) = some pv := hpv
+              exact relex_value hlex hT hh
+            have hpvS : lexS d (render d pv) = pv := by simp [lexS, render, hpvL]
+            have h2 := H (render d pv) (seen ++ [render d ph])
+            rw [hseen1, hpvS] at h2
+            cases hr2 : Resolver.resolve (relex d) n tbl pv (seen.map (lexS d) ++ [ph]) with
+            | outOfFuel => rw [hr2] at hne; exact absurd rfl hne
+            | cycle o =>
+              rw [hr2] at h2
+              simp only [genResolve] at h2
+              show (genResolve d lk m (render d pv) lk (seen ++ [render d ph]) >>= _) >>= rsFinish = _
+              simp [genResolve, h2 (by simp), conv, convL]
+            | ok pv' =>
+              rw [hr2] at h2 hne
+              simp only [genResolve] at h2
+              show (genResolve d lk m (render d pv) lk (seen ++ [render d ph]) >>= _) >>= rsFinish = _
+              simp only [genResolve, h2 (by simp), conv, Go.Res.ok_bind, Go.deref]
+              -- replaceAt(result, si, ei+sl, *pv)
+              have e_eisl : (((done.length + (unlex d b).length + d.pre.length + (unlex d ph).length : Nat) : Int)) + (d.suf.length : Int)
+                  = ((done.length + (unlex d b).length + d.pre.length + (unlex d ph).length + d.suf.length : Nat) : Int) := by omega
+              have hra := replaceAt_generated_eq_model (String.ofList (done ++ rest)) (render d pv')
+                (done.length + (unlex d b).length)
+                (done.length + (unlex d b).length + d.pre.length + (unlex d ph).length + d.suf.length)
+                (by rw [hres]; simp; omega)
+              have hdone' : done ++ rest = (done ++ unlex d b ++ d.pre ++ unlex d ph ++ d.suf) ++ unlex d after := by
+                rw [hbytes]; simp
+              have hdrop2 : (done ++ rest).drop (done.length + (unlex d b).length + d.pre.length + (unlex d ph).length + d.suf.length)
+                  = unlex d after := by
+                rw [hdone', List.drop_left' (by simp only [List.length_append]; first | done | omega)]
+              have htake : (done ++ rest).take (done.length + (unlex d b).length) = done ++ unlex d b := by
+                have : done ++ rest = (done ++ unlex d b) ++ (d.pre ++ (unlex d ph ++ (d.suf ++ unlex d after))) := by
+                  rw [hbytes]; simp
+                rw [this, List.take_left' (by simp only [List.length_append])]
+              rw [hres, htake, hdrop2] at hra
+              have hrt : (render d pv').toList = unlex d pv' := by simp [render]
+              rw [hrt] at hra
+              -- indexAfter(result, prefix, si+len(*pv))
+              have e_len : (((done.length + (unlex d b).length : Nat) : Int)) + Go.len (render d pv')
+                  = ((done.length + (unlex d b).length + (unlex d pv').length : Nat) : Int) := by
+                rw [Go.len_eq, hrt]; omega
+              have hia := indexAfter_generated_eq_model
+                (String.ofList (done ++ unlex d b ++ unlex d pv' ++ unlex d after)) (String.ofList d.pre)
+                (done.length + (unlex d b).length + (unlex d pv').length)
+              simp only [String.toList_ofList] at hia
+              have hnl : ¬ (done ++ unlex d b ++ unlex d pv' ++ unlex d after).length
+                  < done.length + (unlex d b).length + (unlex d pv').length := by
+                simp only [List.length_append]; omega
+              have hdrop3 : (done ++ unlex d b ++ unlex d pv' ++ unlex d after).drop
+                  (done.length + (unlex d b).length + (unlex d pv').length) = unlex d after := by
+                rw [List.drop_left' (by simp only [List.length_append]; first | done | omega)]
+              rw [if_neg hnl, hdrop3] at hia
+              have hsi' : Go.stringsIndexC d.pre (unlex d after)
+                  (done.length + (unlex d b).length + (unlex d pv').length)
+                  = siOf d (done ++ unlex d b ++ unlex d pv') (unlex d after) := by
+                rw [siOf_eq_stringsIndexC hd]; congr 1; simp only [List.length_append]
+              rw [hsi'] at hia
+              simp only [e_eisl, hra, Go.Res.ok_bind, e_len, hia, hrm]
+              have hk := K (done ++ unlex d b ++ unlex d pv') (unlex d after) seen f (by omega)
+              rw [hafterL] at hk
+              have hne' : Resolver.resolve (relex d) n tbl after (seen.map (lexS d)) ≠ .outOfFuel :=
+                prepend_ne_outOfFuel.mp hne
+              show genLoop d lk (genResolve d lk m) f seen _ _ >>= rsFinish = _
+              rw [hk hne']
+              cases Resolver.resolve (relex d) n tbl after (seen.map (lexS d)) <;>
+                simp [convL, Res.prepend, DivR.unlex_append]
+
+end Ytk.C11
+
+namespace Ytk.C11
+open Ytk.Generated Ytk.Resolver
+
+theorem loopOK_of_sub (d : Delims) (hd : d.BytesOK) (lk : String → Option String) (tbl : Table)
+    (hlk : LookupRel d lk tbl) (hT : ∀ kv ∈ tbl, relex d kv.2 = kv.2) (m : Nat) :
+    ∀ n, (∀ n', n' < n → SubOK d lk tbl m n') → LoopOK d lk tbl m n := by
+  intro n
+  induction n with
+  | zero => intro _ done rest seen lf _ hne; exact absurd rfl hne
+  | succ n ih =>
+    intro Hs
+    exact loop_iter d hd lk tbl hlk hT m n (Hs n (Nat.lt_succ_self n)) (ih (fun n' h => Hs n' (Nat.lt_succ_of_lt h)))
+
+theorem subOK_all (d : Delims) (hd : d.BytesOK) (lk : String → Option String) (tbl : Table)
+    (hlk : LookupRel d lk tbl) (hT : ∀ kv ∈ tbl, relex d kv.2 = kv.2) :
+    ∀ m n, n ≤ m → SubOK d lk tbl m n := by
+  intro m
+  induction m with
+  | zero =>
+    intro n hn s seen hne
+    have : n = 0 := by omega
+    subst this
+    exact absurd rfl hne
+  | succ m ih =>
+    intro n hn s seen hne
+    cases n with
+    | zero => exact absurd rfl hne
+    | succ n =>
+      have hL := loopOK_of_sub d hd lk tbl hlk hT m (n + 1) (fun n' h => ih n' (by omega))
+      have hloop := hL [] s.toList seen (s.toList.length + 1) (Nat.le_refl _) hne
+      simp only [List.nil_append, String.ofList_toList, convL_nil] at hloop
+      have hsi := stringsIndex_pre hd s
+      have hfuel : (Go.len s + 1).toNat = s.toList.length + 1 := by simp only [Go.len_eq]; omega
+      unfold genResolve Funcs.resolve
+      simp only [hfuel]
+      cases hp : findPre (lex d s.toList) with
+      | none =>
+        rw [hp] at hsi
+        have : firstPh (lexS d s) = none := by simp [firstPh, lexS, hp]
+        rw [resolve_succ_none n _ this]
+        simp [hsi, conv, render, lexS, unlex_lex']
+      | some p =>
+        obtain ⟨b, afterPre⟩ := p
+        rw [hp] at hsi
+        have hso : siOf d [] s.toList = (((unlex d b).length : Nat) : Int) := by simp [siOf, hp]
+        rw [hso] at hloop
+        have hne1 : ((((unlex d b).length : Nat) : Int) == -1) = false := by
+          rw [beq_eq_false_iff_ne]; omega
+        simp only [hsi, hne1, Bool.false_eq_true, if_false]
+        show _ = conv d (Resolver.resolve (relex d) (n + 1) tbl (lex d s.toList) (seen.map (lexS d)))
+        rw [← hloop]
+        show (_ >>= _) = (_ >>= _)
+        congr 1
+
+/-- **props.propImpl.resolve, as translated (BYTES), against the hand-written model (TOKENS).**
+    For every delimiter triple in `Delims.BytesOK`, every lookup function `lk` and table `tbl` that
+    describe the same map under the lexer (`LookupRel`), the table values re-lexing to themselves (true
+    of every table obtained by lexing strings), every text `s`, every stack `seen`:
+    whenever the model has ENDED with fuel `n` (`≠ outOfFuel`), the translated function run with any
+    recursion fuel `m ≥ n` (its loop with the fuel `len(value)+1` the translator instantiates) neither
+    runs out of fuel nor panics on a slice bound, and has the SAME OUTCOME KIND and text:
+      model `.ok t`     ↦ `.ok (some (unlex t))`  (the Go result `&result`, result = rendering of `t`)
+      model `.cycle _`  ↦ `.panic`                 (the "Circular placeholder reference" panic).
+    The model runs with the real `norm = relex d` on `lex d s` and the lexed stack.
+    (The model spends one unit of fuel per loop continuation as well, the translation only per
+    recursive call: with EQUAL fuel the translation may still end where the model reports
+    `outOfFuel`; hence the statement is this direction, for all `m ≥ n`.) -/
+theorem resolve_generated_eq_model (d : Delims) (hd : d.BytesOK) (lk : String → Option String) (tbl : Table)
+    (hlk : LookupRel d lk tbl) (hT : ∀ kv ∈ tbl, relex d kv.2 = kv.2) (n m : Nat) (hnm : n ≤ m)
+    (s : String) (seen : List String)
+    (hne : Resolver.resolve (relex d) n tbl (lex d s.toList) (seen.map fun x => lex d x.toList) ≠ .outOfFuel) :
+    Funcs.resolve (String.ofList d.pre) (d.pre.length : Int) (String.ofList d.suf) (d.suf.length : Int)
+        (String.ofList d.sep) (d.sep.length : Int) m s lk seen
+      = (match Resolver.resolve (relex d) n tbl (lex d s.toList) (seen.map fun x => lex d x.toList) with
+         | .ok t => .ok (some (String.ofList (unlex d t)))
+         | .cycle _ => .panic
+         | .outOfFuel => .fuel) := by
+  have := subOK_all d hd lk tbl hlk hT m n hnm s seen hne
+  show genResolve d lk m s lk seen = _
+  rw [this]
+  show conv d (Resolver.resolve (relex d) n tbl (lex d s.toList) (seen.map fun x => lex d x.toList)) = _
+  generalize Resolver.resolve (relex d) n tbl (lex d s.toList) (seen.map fun x => lex d x.toList) = r
+  cases r <;> rfl
+
+/-- **`Resolver.Resolve(s)`, as translated, against `resolveTop`**: same outcome kind and text
+    whenever the model has ended (hypotheses as in `resolve_generated_eq_model`) -/
+theorem Resolve_generated_eq_model (d : Delims) (hd : d.BytesOK) (lk : String → Option String) (tbl : Table)
+    (hlk : LookupRel d lk tbl) (hT : ∀ kv ∈ tbl, relex d kv.2 = kv.2) (n m : Nat) (hnm : n ≤ m) (s : String)
+    (hne : Resolver.resolveTop (relex d) n tbl (lex d s.toList) ≠ .outOfFuel) :
+    Funcs.Resolve m lk (String.ofList d.pre) (d.pre.length : Int) (String.ofList d.suf) (d.suf.length : Int)
+        (String.ofList d.sep) (d.sep.length : Int) s
+      = (match Resolver.resolveTop (relex d) n tbl (lex d s.toList) with
+         | .ok t => .ok (String.ofList (unlex d t))
+         | .cycle _ => .panic
+         | .outOfFuel => .fuel) := by
+  unfold Funcs.Resolve Resolver.resolveTop at *
+  have := resolve_generated_eq_model d hd lk tbl hlk hT n m hnm s [] hne
+  simp only [List.map_nil] at this
+  rw [this]
+  cases Resolver.resolve (relex d) n tbl (lex d s.toList) [] <;> simp [Go.deref]
+
+/-- the lookup function that a token table describes -/
+def lkOf (d : Delims) (tbl : Table) : String → Option String :=
+  fun k => (tbl.get (lex d k.toList)).map (fun v => String.ofList (unlex d v))
+
+theorem lookupRel_lkOf (d : Delims) (tbl : Table) : LookupRel d (lkOf d tbl) tbl := fun _ => rfl
+
+/-- the hypotheses of `resolve_generated_eq_model` are satisfiable together on a non-trivial run
+    (default delimiters; a value that is itself a placeholder, a default, kernel-evaluated on both sides) -/
+theorem nonvacuous_resolve_generated_eq_model :
+    let d := DivR.dd
+    let tbl : Table := [(lex d "x".toList, lex d "${y}".toList), (lex d "y".toList, lex d "1".toList)]
+    d.BytesOK ∧ (∀ kv ∈ tbl, relex d kv.2 = kv.2) ∧ LookupRel d (lkOf d tbl) tbl ∧
+    Resolver.resolve (relex d) 6 tbl (lex d "a${x}${q:z}".toList) [] = .ok (lex d "a1z".toList) ∧
+    Funcs.resolve "${" 2 "}" 1 ":" 1 6 "a${x}${q:z}" (lkOf d tbl) [] = .ok (some "a1z") := by
+  refine ⟨by decide, by decide, fun _ => rfl, by decide, by decide⟩
 
 end Ytk.C11
